@@ -255,6 +255,16 @@ def build_chain(name, pl):
         a = cb.ExtrudedRing(P(0, 0, 0), P(0, 0, 2), P(1, 0, 0), L(0.6))
         b = cb.Cylinder.fill(a)
         shared = 16
+    elif name == "Cylinder.fill(16 segments)":
+        # a ring with a non-default number of segments: fill() either refuses it or shares every inner vertex with it
+        a = cb.ExtrudedRing(P(0, 0, 0), P(0, 0, 2), P(1, 0, 0), L(0.6), n_segments=16)
+        try:
+            b = cb.Cylinder.fill(a)
+        except Exception as e:      # noqa
+            if type(e).__name__ != "CylinderCreationError":
+                raise
+            b = None
+        shared = 32
     elif name == "ExtrudedRing.chain":
         a = cb.ExtrudedRing(P(0, 0, 0), P(0, 0, 2), P(1, 0, 0), L(0.6))
         b = cb.ExtrudedRing.chain(a, L(1.0))
@@ -424,6 +434,10 @@ def run_shape(sx, name, rotated, grade=False, ground=None, placed=False):
 def run_chain(sx, name, rotated):
     pl = Placement(sx, rotated)
     a, b, shared = build_chain(name, pl)
+    if b is None:
+        sx.reach("assembled")
+        sx.note("refused", name)
+        return "refused"
     m1, m2, m12 = cb.Mesh(), cb.Mesh(), cb.Mesh()
     m1.add(a)
     m2.add(b)
@@ -464,6 +478,8 @@ def jobs(tier, seed):
                        "params": {"name": name, "rotated": bool(g % 2 == 0), "ground": g}})
         js.append({"name": f"{name}|grade, all schedules", "fn": "run_grade", "params": {"name": name},
                    "max_paths": 40 if tier == "quick" else 3000})
+    js.append({"name": "Cylinder.fill(16 segments)|ground twin only", "fn": "run_chain", "symbolic": False,
+               "params": {"name": "Cylinder.fill(16 segments)", "rotated": False}})
     for name in CHAINS:
         js.append({"name": f"{name}|rotated=False", "fn": "run_chain", "params": {"name": name, "rotated": False}})
         if tier == "thorough":
